@@ -10,6 +10,77 @@ use std::collections::{BTreeMap, HashSet};
 use std::sync::atomic::{AtomicBool, AtomicU64, Ordering};
 use std::sync::Mutex;
 
+/// Wall-clock watchdog: turns a case that never returns (an engine without logical hang detection met
+/// code that waits forever) into exit 2 "inconclusive" - never into a violation.
+pub mod watchdog {
+    use super::Case;
+    use std::sync::atomic::{AtomicPtr, AtomicU64, Ordering};
+
+    pub static PROGRESS: AtomicU64 = AtomicU64::new(0);
+    const N: usize = 128;
+    #[allow(clippy::declare_interior_mutable_const)]
+    const NULL: AtomicPtr<Case> = AtomicPtr::new(std::ptr::null_mut());
+    pub static SLOTS: [AtomicPtr<Case>; N] = [NULL; N];
+
+    pub struct Running(usize);
+
+    pub fn enter(slot: usize, case: &Case) -> Running {
+        SLOTS[slot % N].store(case as *const Case as *mut Case, Ordering::SeqCst);
+        Running(slot % N)
+    }
+
+    impl Drop for Running {
+        fn drop(&mut self) {
+            SLOTS[self.0].store(std::ptr::null_mut(), Ordering::SeqCst);
+            PROGRESS.fetch_add(1, Ordering::Relaxed);
+        }
+    }
+
+    pub fn start(prop: String) {
+        let limit: u64 = std::env::var("VERIF_WATCHDOG_S").ok().and_then(|x| x.parse().ok()).unwrap_or(120);
+        std::thread::spawn(move || {
+            let mut last = PROGRESS.load(Ordering::Relaxed);
+            let mut last_ptrs: Vec<usize> = vec![0; N];
+            let mut stale_for = 0u64;
+            loop {
+                std::thread::sleep(std::time::Duration::from_secs(5));
+                let now = PROGRESS.load(Ordering::Relaxed);
+                let ptrs: Vec<usize> = SLOTS.iter().map(|s| s.load(Ordering::SeqCst) as usize).collect();
+                let any_running = ptrs.iter().any(|p| *p != 0);
+                if now != last || !any_running {
+                    last = now;
+                    last_ptrs = ptrs;
+                    stale_for = 0;
+                    continue;
+                }
+                stale_for += 5;
+                if stale_for < limit {
+                    continue;
+                }
+                // the same cases have been running for the whole period without any case finishing
+                let mut msg = String::new();
+                for (i, p) in ptrs.iter().enumerate() {
+                    if *p != 0 && *p == last_ptrs[i] {
+                        // SAFETY: the worker is still inside the evaluation of this very case
+                        let case: &Case = unsafe { &*(*p as *const Case) };
+                        let dir = crate::known::verif_root().join("replays").join(&prop);
+                        let _ = std::fs::create_dir_all(&dir);
+                        let path = dir.join(format!("hung-{:016x}.json", case.hash64()));
+                        let _ = std::fs::write(&path, case.to_text());
+                        msg = format!("{} replay={}", case.to_line(), path.display());
+                        break;
+                    }
+                }
+                println!(
+                    "INCONCLUSIVE: no case finished within {} s of wall-clock time; a case of property {} does not return in an engine without logical hang detection: {}",
+                    limit, prop, msg
+                );
+                std::process::exit(2);
+            }
+        });
+    }
+}
+
 /// Result of executing one case under one property's oracle.
 pub struct Outcome {
     pub verdict: Result<(), Violation>,
@@ -70,7 +141,17 @@ pub struct Failure {
     pub campaign: String,
 }
 
+/// A violation that is not a `Case` (generated client program).
+pub struct ProgFailure {
+    pub sig: String,
+    pub detail: String,
+    pub replay: std::path::PathBuf,
+}
+
 pub struct Ctx {
+    pub prog_failure: Option<ProgFailure>,
+    /// harness trouble that makes the run inconclusive (exit 2)
+    pub trouble: Vec<String>,
     pub prop: String,
     pub tier: String,
     pub seed: u64,
@@ -105,13 +186,15 @@ impl Ctx {
             open: crate::known::open_findings(prop),
             tally: Tally::default(),
             failure: None,
+            prog_failure: None,
+            trouble: vec![],
             known_hit: BTreeMap::new(),
             start: std::time::Instant::now(),
         }
     }
 
     pub fn failed(&self) -> bool {
-        self.failure.is_some()
+        self.failure.is_some() || self.prog_failure.is_some()
     }
 
     /// Runs one campaign on all workers. Stops early (all workers) at the first unknown violation.
@@ -168,7 +251,10 @@ impl Ctx {
                             // another worker found a violation: finish quickly
                             return Ok(());
                         }
-                        let out = (c.run)(&case);
+                        let out = {
+                            let _running = watchdog::enter(w, &case);
+                            (c.run)(&case)
+                        };
                         if !failing.get() {
                             evals.fetch_add(out.evals.max(1), Ordering::Relaxed);
                             if let Some(complete) = out.dfs {
@@ -310,7 +396,10 @@ impl Ctx {
                         if stop.load(Ordering::Relaxed) {
                             break;
                         }
-                        let o = eval(&cases[i]);
+                        let o = {
+                            let _running = watchdog::enter(w, &cases[i]);
+                            eval(&cases[i])
+                        };
                         if o.verdict.is_err() {
                             // keep going only for known findings; an unknown one stops everybody soon enough
                             local.push((i, o));
